@@ -252,7 +252,8 @@ var verifdbErr = context.Canceled
 // was (all or nothing).
 func VerifC17Connector() {
 	u, d, st := verifUser()
-	u.imapLimits = limits.NewIMAPLimits(100, 2, 1000, 1000)
+	maxBoxes := 3 + vsymChoice("maxMailboxes", 2) // the user starts with 3 mailboxes (recovery, A, B)
+	u.imapLimits = limits.NewIMAPLimits(uint32(maxBoxes), 2, 1000, 1000)
 	a := d.AddBox("A", "mb-A", 2)
 	b := d.AddBox("B", "mb-B", 3)
 	for i, box := range []*verifdb.Box{a, b} {
@@ -267,7 +268,9 @@ func VerifC17Connector() {
 	}
 	boxSets := [][]imap.MailboxID{{"mb-A"}, {"mb-B"}, {"mb-A", "mb-B"}, {"mb-B", "mb-A"}}
 	var up imap.Update
-	switch vsymChoice("kind", 2) {
+	switch vsymChoice("kind", 3) {
+	case 2:
+		up = imap.NewMailboxCreated(imap.Mailbox{ID: "mb-new", Name: []string{"new"}, Flags: imap.NewFlagSet(), PermanentFlags: imap.NewFlagSet(), Attributes: imap.NewFlagSet()})
 	case 0:
 		up = imap.NewMessagesCreated(false, verifMessageCreated("rn-1", verifLit2, boxSets[vsymChoice("set1", 4)]...), verifMessageCreated("rn-2", verifLit2, boxSets[vsymChoice("set2", 4)]...))
 	case 1:
@@ -281,6 +284,7 @@ func VerifC17Connector() {
 	for _, box := range []*verifdb.Box{a, b} {
 		vsymAssert(len(box.Rows) <= 2, "no mailbox exceeds the configured maximum message count after a connector update")
 	}
+	vsymAssert(len(d.Boxes) <= maxBoxes, "the number of mailboxes stays within the configured maximum after a connector update")
 	if err != nil {
 		vsymCover("connector-refused")
 		vsymAssert(verifSnap(d).equal(before), "a refused connector update leaves the index as it was (no partial application)")
